@@ -48,3 +48,9 @@ V('C01', 'neg-helper-extracted', G, E + 'visit_ForQuery',
   "        self.write(ident_to_str(node.iterator_alias))", "        alias = node.iterator_alias\n        self.write(ident_to_str(alias))", None)
 V('C01', 'neg-extra-parens-balanced', G, E + 'visit_Placeholder',
   "        self.write(node.name)", "        self.write('(')\n        self.write(node.name)\n        self.write(')')", None)
+
+V('C01', 'pointer-decision-before-bases', 'edb/edgeql/codegen.py', 'edb.edgeql.codegen.EdgeQLSourceGenerator.visit_CreateLink',
+  '''        node = self._ddl_add_pointer_bases(node)
+''', '''        _n_cmds = len(node.commands)
+        node = self._ddl_add_pointer_bases(node)
+''', 'C01.R7', 'visit_CreateLink:_ddl_add_pointer_bases')
